@@ -183,6 +183,14 @@ var GposSimple = []Simple{
 			Mark2Array: [][]anchor.Table{{{X: 30, Y: 40}}},
 		}}
 	}},
+	{"GPOS4.1 M on A (one mark class)", 4, func() []gtab.Subtable {
+		return []gtab.Subtable{&gtab.Gpos4_1{
+			MarkCov:   cov(GM),
+			BaseCov:   cov(GA),
+			MarkArray: []markarray.Record{{Class: 0, Table: anchor.Table{X: 4, Y: 5}}},
+			BaseArray: [][]anchor.Table{{{X: 200, Y: 600}}},
+		}}
+	}},
 	{"GPOS2.2 classes, class pairs without any adjustment", 2, func() []gtab.Subtable {
 		return []gtab.Subtable{&gtab.Gpos2_2{
 			Cov:    coverage.Set{GA: true, GB: true},
